@@ -50,3 +50,33 @@ Print Assumptions C07_trichotomy.
 Theorem C07_prefix_smaller : forall n l x r, Forall (wf n) l -> lt_depth (S n) (Node l) (Node (l ++ x :: r)) = true.
 Proof. exact C07_prefix_smaller_proved. Qed.
 Print Assumptions C07_prefix_smaller.
+
+(* ---- any element equality (Model/CompareBy.v): the element type's own ==, no law assumed; ma / mb: what each operand
+   reads (two projections of one storage read different values from the same addresses) ---- *)
+From BM Require Import Model.CompareBy Proofs.CompareByProofs.
+
+Theorem C07_eq_any_element_equality : forall (eqe : Z -> Z -> bool) a b ma mb,
+  v_eq_by eqe a b ma mb = true <->
+    x_eq (l_extensions (lay a)) (l_extensions (lay b)) = true
+    /\ Forall2 (fun x y => eqe x y = true) (flat_t (v_tree a ma)) (flat_t (v_tree b mb)).
+Proof. exact eq_by_iff_proved. Qed.
+Print Assumptions C07_eq_any_element_equality.
+
+Theorem C07_eq_by_generalises_eq : forall a b m, v_eq_by Z.eqb a b m m = v_eq a b m.
+Proof. exact eq_by_Zeqb_proved. Qed.
+Print Assumptions C07_eq_by_generalises_eq.
+
+(* no shortcut on the identity of the operands is sound: a view equals ITSELF exactly when each element equals itself *)
+Theorem C07_self_eq_iff_elements_reflexive : forall (eqe : Z -> Z -> bool) a m,
+  v_eq_by eqe a a m m = true <-> Forall (fun x => eqe x x = true) (flat_t (v_tree a m)).
+Proof. exact self_eq_iff_proved. Qed.
+Print Assumptions C07_self_eq_iff_elements_reflexive.
+
+Theorem C07_self_eq_with_nan : forall nan a m,
+  v_eq_by (nan_eqb nan) a a m m = negb (existsb (Z.eqb nan) (flat_t (v_tree a m))).
+Proof. exact self_eq_nan_proved. Qed.
+Print Assumptions C07_self_eq_with_nan.
+
+Theorem C07_ne_by_negation : forall eqe a b ma mb, v_ne_by eqe a b ma mb = negb (v_eq_by eqe a b ma mb).
+Proof. exact ne_by_negation_proved. Qed.
+Print Assumptions C07_ne_by_negation.
